@@ -345,18 +345,308 @@ theorem slice_getElem? (a : List UInt8) (s l x : Nat) (h1 : s ≤ x) (h2 : x < s
   congr 1
   omega
 
-/-- **Box-hash binding** (same layout): two assets of the same length that both verify against
-the same assertion with the same tiling box map agree at every position that is not in a
-skipped (C2PA / excluded) entry and not in an unlisted PNG signature box. -/
+/-! ### any layout: what one iteration of the name loop does, and what follows from it -/
+
+/-- one iteration of the inner name loop -/
+theorem nameLoop_step {src : List SrcBox} {nN : Nat} {name : String} {rest : List String}
+    {st st' : NameSt} (h : nameLoop src nN (name :: rest) st = .ok st') :
+    ∃ sb st1, src[st.idx]? = some sb ∧ sb.names.head? = some name ∧ st1.idx = st.idx + 1 ∧
+      (st.len = 0 → st1.start = sb.start ∧ st1.len = sb.len ∧
+          st1.skip = (st.skip || decide (name = "C2PA")) ∧ (name = "C2PA" → nN = 1)) ∧
+      (st.len ≠ 0 → st1.start = st.start ∧ st1.len = sb.start - st.start + sb.len ∧
+          st.start ≤ sb.start ∧ st1.skip = st.skip) ∧
+      nameLoop src nN rest st1 = .ok st' := by
+  rw [nameLoop] at h
+  cases hs : src[st.idx]? with
+  | none => simp [hs] at h
+  | some sb =>
+    simp only [hs] at h
+    cases hn0 : sb.names.head? with
+    | none => simp [hn0] at h
+    | some n0 =>
+      simp only [hn0] at h
+      split at h
+      · rename_i hname
+        subst hname
+        split at h
+        · rename_i hl0
+          split at h
+          · rename_i hc
+            split at h
+            · simp at h
+            · rename_i hn1
+              refine ⟨sb, _, rfl, hn0, rfl, ?_, ?_, h⟩
+              · intro _
+                refine ⟨rfl, rfl, by simp [hc], fun _ => by omega⟩
+              · intro hne; exact absurd hl0 hne
+          · rename_i hc
+            refine ⟨sb, _, rfl, hn0, rfl, ?_, ?_, h⟩
+            · intro _
+              refine ⟨rfl, rfl, by simp [hc], fun hh => absurd hh hc⟩
+            · intro hne; exact absurd hl0 hne
+        · rename_i hl0
+          split at h
+          · simp at h
+          · rename_i hlt
+            split at h
+            · simp at h
+            · refine ⟨sb, _, rfl, hn0, rfl, ?_, ?_, h⟩
+              · intro h0; exact absurd h0 hl0
+              · intro _
+                exact ⟨rfl, rfl, by omega, rfl⟩
+      · simp at h
+
+/-- the name loop consumes one source box per name -/
+theorem nameLoop_idx (src : List SrcBox) (nN : Nat) :
+    ∀ (names : List String) (st st' : NameSt), nameLoop src nN names st = .ok st' →
+      st'.idx = st.idx + names.length
+  | [], st, st', h => by
+    simp only [nameLoop, Except.ok.injEq] at h
+    subst h; simp
+  | name :: rest, st, st', h => by
+    obtain ⟨sb, st1, _, _, hi, _, _, hr⟩ := nameLoop_step h
+    have := nameLoop_idx src nN rest st1 st' hr
+    simp only [List.length_cons]
+    omega
+
+/-- with more than one name (or none) in the entry the C2PA flag is never set -/
+theorem nameLoop_skip_keep (src : List SrcBox) (nN : Nat) (hn : nN ≠ 1) :
+    ∀ (names : List String) (st st' : NameSt), nameLoop src nN names st = .ok st' →
+      st'.skip = st.skip
+  | [], st, st', h => by
+    simp only [nameLoop, Except.ok.injEq] at h
+    subst h; rfl
+  | name :: rest, st, st', h => by
+    obtain ⟨sb, st1, _, _, _, h0, h1, hr⟩ := nameLoop_step h
+    rw [nameLoop_skip_keep src nN hn rest st1 st' hr]
+    by_cases hl : st.len = 0
+    · obtain ⟨_, _, hs, hc⟩ := h0 hl
+      rw [hs]
+      by_cases hcn : name = "C2PA"
+      · exact absurd (hc hcn) hn
+      · simp [hcn]
+    · exact (h1 hl).2.2.2
+
+/-- the entry is skipped as "the C2PA box" exactly when its name list is `["C2PA"]`: a property
+of the signed assertion alone, not of the asset's box map -/
+theorem nameLoop_skip (src : List SrcBox) (names : List String) (idx : Nat) (st' : NameSt)
+    (h : nameLoop src names.length names { idx := idx, start := 0, len := 0, skip := false } = .ok st') :
+    st'.skip = decide (names = ["C2PA"]) := by
+  match names, h with
+  | [], h =>
+    simp only [nameLoop, Except.ok.injEq] at h
+    subst h; simp
+  | [x], h =>
+    obtain ⟨sb, st1, _, _, _, h0, _, hr⟩ := nameLoop_step h
+    simp only [nameLoop, Except.ok.injEq] at hr
+    subst hr
+    obtain ⟨_, _, hs, _⟩ := h0 rfl
+    rw [hs]; simp
+  | x :: y :: rest, h =>
+    rw [nameLoop_skip_keep src _ (by simp) _ _ _ h]
+    simp
+
+/-- the entry is not hashed, stated on the signed assertion alone -/
+def entrySkipped (bm : BoxEntry) : Bool := decide (bm.names = ["C2PA"]) || bm.excluded.getD false
+
+theorem spansOf_zip_skipped (src : List SrcBox) :
+    ∀ (boxes : List BoxEntry) (idx : Nat) (sts : List NameSt), spansOf src boxes idx = .ok sts →
+      sts.length = boxes.length ∧ ∀ p ∈ boxes.zip sts, skipped p.1 p.2 = entrySkipped p.1
+  | [], idx, sts, h => by
+    simp only [spansOf, Except.ok.injEq] at h
+    subst h; simp
+  | bm :: rest, idx, sts, h => by
+    rw [spansOf] at h
+    cases hn : nameLoop src bm.names.length bm.names
+        { idx := idx, start := 0, len := 0, skip := false } with
+    | error e => simp [hn] at h
+    | ok st =>
+      simp only [hn] at h
+      cases hr : spansOf src rest st.idx with
+      | error e => simp [hr] at h
+      | ok sts' =>
+        simp only [hr, Except.ok.injEq] at h
+        subst h
+        obtain ⟨hl, hz⟩ := spansOf_zip_skipped src rest st.idx sts' hr
+        refine ⟨by simp [hl], ?_⟩
+        intro p hp
+        simp only [List.zip_cons_cons, List.mem_cons] at hp
+        rcases hp with rfl | hp
+        · simp only [skipped, entrySkipped, nameLoop_skip src bm.names idx st hn]
+        · exact hz p hp
+
+/-- total number of names listed by the assertion -/
+def nameCount : List BoxEntry → Nat
+  | [] => 0
+  | bm :: rest => bm.names.length + nameCount rest
+
+/-- the entries consume exactly `nameCount` source boxes, whatever the box map is -/
+theorem spansOf_lastIdx (src : List SrcBox) :
+    ∀ (boxes : List BoxEntry) (idx : Nat) (sts : List NameSt), spansOf src boxes idx = .ok sts →
+      lastIdx sts idx = idx + nameCount boxes
+  | [], idx, sts, h => by
+    simp only [spansOf, Except.ok.injEq] at h
+    subst h; simp [lastIdx, nameCount]
+  | bm :: rest, idx, sts, h => by
+    rw [spansOf] at h
+    cases hn : nameLoop src bm.names.length bm.names
+        { idx := idx, start := 0, len := 0, skip := false } with
+    | error e => simp [hn] at h
+    | ok st =>
+      simp only [hn] at h
+      cases hr : spansOf src rest st.idx with
+      | error e => simp [hr] at h
+      | ok sts' =>
+        simp only [hr, Except.ok.injEq] at h
+        subst h
+        have h1 := nameLoop_idx src _ _ _ st hn
+        have h2 := spansOf_lastIdx src rest st.idx sts' hr
+        simp only [lastIdx, nameCount, h2]
+        simp only at h1
+        omega
+
+/-- per-entry form of `AllOk` -/
+theorem allOk_zip (a : List UInt8) : ∀ (boxes : List BoxEntry) (sts : List NameSt),
+    AllOk a boxes sts → ∀ p ∈ boxes.zip sts, EntryOk a p.1 p.2
+  | [], [], _, p, hp => by simp at hp
+  | [], _ :: _, h, _, _ => by cases h
+  | _ :: _, [], h, _, _ => by cases h
+  | bm :: bs, st :: sts, h, p, hp => by
+    simp only [List.zip_cons_cons, List.mem_cons] at hp
+    rcases hp with rfl | hp
+    · exact h.1
+    · exact allOk_zip a bs sts h.2 p hp
+
+/-- the coverage loop: every position below the returned end lies in some source box -/
+theorem coverLoop_mem : ∀ (src : List SrcBox) (e n : Nat), coverLoop src e = some n →
+    e ≤ n ∧ ∀ x, e ≤ x → x < n →
+      ∃ (k : Nat) (sb : SrcBox), src[k]? = some sb ∧ sb.start ≤ x ∧ x < sb.start + sb.len
+  | [], e, n, h => by
+    simp only [coverLoop, Option.some.injEq] at h
+    subst h
+    exact ⟨Nat.le_refl _, fun x h1 h2 => by omega⟩
+  | b :: bs, e, n, h => by
+    rw [coverLoop] at h
+    by_cases hg : b.start > e
+    · simp [hg] at h
+    · rw [if_neg hg] at h
+      obtain ⟨hle, ih⟩ := coverLoop_mem bs _ n h
+      refine ⟨by omega, ?_⟩
+      intro x h1 h2
+      by_cases hx : x < max e (min (b.start + b.len) u64Max)
+      · exact ⟨0, b, rfl, by omega, by omega⟩
+      · obtain ⟨k, sb, hk, hc⟩ := ih x (by omega) h2
+        exact ⟨k + 1, sb, by simpa using hk, hc⟩
+
+/-- every source box consumed by an entry lies inside the span that entry hashes (or is empty) -/
+def closedFrom (src : List SrcBox) : List NameSt → Nat → Prop
+  | [], _ => True
+  | st :: sts, idx =>
+    (∀ k sb, idx ≤ k → k < st.idx → src[k]? = some sb →
+      sb.len = 0 ∨ (st.start ≤ sb.start ∧ sb.start + sb.len ≤ st.start + st.len)) ∧
+    closedFrom src sts st.idx
+
+theorem closed_cover (src : List SrcBox) : ∀ (sts : List NameSt) (idx : Nat),
+    closedFrom src sts idx → ∀ k sb x, idx ≤ k → k < lastIdx sts idx → src[k]? = some sb →
+      sb.start ≤ x → x < sb.start + sb.len → ∃ st ∈ sts, st.start ≤ x ∧ x < st.start + st.len
+  | [], idx, _, k, sb, x, h1, h2, _, _, _ => by simp only [lastIdx] at h2; omega
+  | st :: sts, idx, hc, k, sb, x, h1, h2, hk, hx1, hx2 => by
+    simp only [lastIdx] at h2
+    by_cases hlt : k < st.idx
+    · rcases hc.1 k sb h1 hlt hk with h0 | ⟨ha, hb⟩
+      · omega
+      · exact ⟨st, List.mem_cons_self, by omega, by omega⟩
+    · obtain ⟨st2, hm, hh⟩ := closed_cover src sts st.idx hc.2 k sb x (by omega) h2 hk hx1 hx2
+      exact ⟨st2, List.mem_cons_of_mem _ hm, hh⟩
+
+/-- entries that list a single name each (what `BoxHash::generate_box_hash_from_stream` writes
+with `minimal_form = false`, the only form the SDK signs with) are closed on every box map -/
+theorem single_closed (src : List SrcBox) : ∀ (boxes : List BoxEntry) (idx : Nat) (sts : List NameSt),
+    (∀ bm ∈ boxes, bm.names.length = 1) → spansOf src boxes idx = .ok sts → closedFrom src sts idx
+  | [], idx, sts, _, h => by
+    simp only [spansOf, Except.ok.injEq] at h
+    subst h; trivial
+  | bm :: rest, idx, sts, h1, h => by
+    rw [spansOf] at h
+    cases hn : nameLoop src bm.names.length bm.names
+        { idx := idx, start := 0, len := 0, skip := false } with
+    | error e => simp [hn] at h
+    | ok st =>
+      simp only [hn] at h
+      cases hr : spansOf src rest st.idx with
+      | error e => simp [hr] at h
+      | ok sts' =>
+        simp only [hr, Except.ok.injEq] at h
+        subst h
+        refine ⟨?_, single_closed src rest st.idx sts' (fun b hb => h1 b (List.mem_cons_of_mem _ hb)) hr⟩
+        have hlen := h1 bm List.mem_cons_self
+        match hnm : bm.names, hlen with
+        | [x], _ =>
+          rw [hnm] at hn
+          obtain ⟨sb, st1, hsb, _, hi, h0, _, hrest⟩ := nameLoop_step hn
+          simp only [nameLoop, Except.ok.injEq] at hrest
+          subst hrest
+          obtain ⟨hs, hl, _, _⟩ := h0 rfl
+          intro k sb' hk1 hk2 hk
+          simp only at hi hsb
+          have : k = idx := by omega
+          subst this
+          rw [hsb] at hk
+          cases hk
+          right
+          omega
+
+/-- first source index is 0 or 1, and 1 only for a box map that starts with the PNG signature -/
+theorem idx0_le_one (boxes : List BoxEntry) (src : List SrcBox) : idx0 boxes src = 0 ∨ idx0 boxes src = 1 := by
+  have key : ∀ (c : Prop) [Decidable c],
+      (if c then 1 else 0 : Nat) = 0 ∨ (if c then 1 else 0 : Nat) = 1 := by
+    intro c _
+    by_cases hc : c
+    · right; rw [if_pos hc]
+    · left; rw [if_neg hc]
+  unfold idx0
+  cases src.head? with
+  | none => left; rfl
+  | some first => exact key _
+
+/-- **Coverage without a layout hypothesis.** When the verification succeeded on an asset that
+is not just the manifest store and every source box lies inside its entry's span, every position
+of the asset lies in the span of some entry, or in the PNG signature the assertion does not list. -/
+theorem spans_cover_closed (boxes : List BoxEntry) (src : List SrcBox) (sts : List NameSt) (n : Nat)
+    (hl : lastIdx sts (idx0 boxes src) = src.length)
+    (hc : closedFrom src sts (idx0 boxes src)) (hcov : coverLoop src 0 = some n)
+    (x : Nat) (hx : x < n) (hp : inSkippedPngh boxes src x = false) :
+    ∃ st ∈ sts, st.start ≤ x ∧ x < st.start + st.len := by
+  obtain ⟨_, hmem⟩ := coverLoop_mem src 0 n hcov
+  obtain ⟨k, sb, hk, h1, h2⟩ := hmem x (Nat.zero_le _) hx
+  have hklt : k < src.length := (List.getElem?_eq_some_iff.1 hk).1
+  by_cases hk0 : idx0 boxes src ≤ k
+  · exact closed_cover src sts _ hc k sb x hk0 (by rw [hl]; exact hklt) hk h1 h2
+  · exfalso
+    rcases idx0_le_one boxes src with h0 | h0
+    · omega
+    · have hk' : k = 0 := by omega
+      subst hk'
+      cases src with
+      | nil => simp at hk
+      | cons b bs =>
+        simp only [List.getElem?_cons_zero, Option.some.injEq] at hk
+        subst hk
+        simp [inSkippedPngh, h0] at hp
+        omega
+
+/-- **Box-hash binding** (same layout): two assets that both verify against the same assertion
+with the same tiling box map agree at every position that is not in a skipped (C2PA / excluded)
+entry and not in an unlisted PNG signature box. (No premise on the second asset's length: it is
+`boxhash_length_fixed` that makes the lengths equal.) -/
 theorem boxhash_same_layout (boxes : List BoxEntry) (calg calg' : Option String) (src : List SrcBox)
-    (a a' : List UInt8) (buf buf' : Nat) (hlen : a.length = a'.length)
+    (a a' : List UInt8) (buf buf' : Nat)
     (hw : Tiles src 0 a.length) (hn : a.length ≤ u64Max)
     (h : verifyBox boxes calg (some src) a buf = .ok)
     (h' : verifyBox boxes calg' (some src) a' buf' = .ok) :
     ∃ sts, spansOf src boxes (idx0 boxes src) = .ok sts ∧
       ∀ x, x < a.length → unprotected boxes sts x = false → inSkippedPngh boxes src x = false →
         a[x]? = a'[x]? := by
-  have _ := hlen   -- not needed: both assets cover the same tiling of `[0, a.length)`
   obtain ⟨_, _, sts, hs, hl, hok, _⟩ := verifyBox_ok boxes calg src a buf h
   obtain ⟨_, _, sts', hs', _, hok', _⟩ := verifyBox_ok boxes calg' src a' buf' h'
   rw [hs] at hs'
@@ -381,5 +671,197 @@ theorem boxhash_same_layout (boxes : List BoxEntry) (calg calg' : Option String)
     · exact he'.2
   rw [← slice_getElem? a st.start st.len x hc1 hc2, ← slice_getElem? a' st.start st.len x hc1 hc2,
     e1, e2]
+
+/-! ### the box-hash statements without a layout hypothesis -/
+
+/-- **What a verified box hash fixes, on any box map**: every entry of the signed assertion that
+is not the C2PA entry and not marked `excluded` has a span inside the asset whose bytes are the
+signed preimage of that entry. -/
+theorem boxhash_protected (boxes : List BoxEntry) (calg : Option String) (src : List SrcBox)
+    (a : List UInt8) (buf : Nat) (h : verifyBox boxes calg (some src) a buf = .ok) :
+    ∃ sts, spansOf src boxes (idx0 boxes src) = .ok sts ∧ sts.length = boxes.length ∧
+      ∀ p ∈ boxes.zip sts, entrySkipped p.1 = false →
+        p.2.start + p.2.len ≤ a.length ∧ slice a p.2.start p.2.len = p.1.pre := by
+  obtain ⟨_, _, sts, hs, _, hok, _⟩ := verifyBox_ok boxes calg src a buf h
+  obtain ⟨hl, hz⟩ := spansOf_zip_skipped src boxes _ sts hs
+  refine ⟨sts, hs, hl, ?_⟩
+  intro p hp hsk
+  rcases allOk_zip a boxes sts hok p hp with he | he
+  · rw [hz p hp, hsk] at he; cases he
+  · exact he
+
+/-- the bytes of the asset that the assertion's hashes cover, entry by entry in order -/
+def hashedContent (a : List UInt8) (boxes : List BoxEntry) (sts : List NameSt) : List UInt8 :=
+  (boxes.zip sts).flatMap fun p => if entrySkipped p.1 then [] else slice a p.2.start p.2.len
+
+/-- the signed preimages (H-free) of the hashed entries, in order -/
+def signedContent (boxes : List BoxEntry) : List UInt8 :=
+  boxes.flatMap fun bm => if entrySkipped bm then [] else bm.pre
+
+theorem hashedContent_eq (a : List UInt8) : ∀ (boxes : List BoxEntry) (sts : List NameSt),
+    sts.length = boxes.length →
+    (∀ p ∈ boxes.zip sts, entrySkipped p.1 = false → slice a p.2.start p.2.len = p.1.pre) →
+    hashedContent a boxes sts = signedContent boxes
+  | [], [], _, _ => rfl
+  | [], _ :: _, hl, _ => by simp at hl
+  | _ :: _, [], hl, _ => by simp at hl
+  | bm :: bs, st :: sts, hl, h => by
+    have ih := hashedContent_eq a bs sts (by simpa using hl)
+      (fun p hp => h p (by simp [hp]))
+    have h0 := h (bm, st) (by simp)
+    unfold hashedContent signedContent at *
+    simp only [List.zip_cons_cons, List.flatMap_cons, ih]
+    congr 1
+    cases hsk : entrySkipped bm
+    · simp only [Bool.false_eq_true, if_false]; exact h0 hsk
+    · simp
+
+/-- **`boxhash_binds_any_layout`.** Two assets that verify against the same signed box hash,
+each under the box map its own handler run produced (different boundaries, different lengths
+allowed), carry the same protected content: the concatenation of the hashed spans of either
+asset is the concatenation of the signed preimages. -/
+theorem boxhash_binds_any_layout (boxes : List BoxEntry) (calg calg' : Option String)
+    (src src' : List SrcBox) (a a' : List UInt8) (buf buf' : Nat)
+    (h : verifyBox boxes calg (some src) a buf = .ok)
+    (h' : verifyBox boxes calg' (some src') a' buf' = .ok) :
+    ∃ sts sts', spansOf src boxes (idx0 boxes src) = .ok sts ∧
+      spansOf src' boxes (idx0 boxes src') = .ok sts' ∧
+      hashedContent a boxes sts = signedContent boxes ∧
+      hashedContent a' boxes sts' = signedContent boxes := by
+  obtain ⟨sts, hs, hl, hp⟩ := boxhash_protected boxes calg src a buf h
+  obtain ⟨sts', hs', hl', hp'⟩ := boxhash_protected boxes calg' src' a' buf' h'
+  exact ⟨sts, sts', hs, hs', hashedContent_eq a boxes sts hl (fun p m k => (hp p m k).2),
+    hashedContent_eq a' boxes sts' hl' (fun p m k => (hp' p m k).2)⟩
+
+/-- the number of source boxes is fixed by the assertion (plus the unlisted PNG signature) -/
+theorem verifyBox_box_count (boxes : List BoxEntry) (calg : Option String) (src : List SrcBox)
+    (a : List UInt8) (buf : Nat) (h : verifyBox boxes calg (some src) a buf = .ok) :
+    src.length = idx0 boxes src + nameCount boxes := by
+  obtain ⟨_, _, sts, hs, hl, _, _⟩ := verifyBox_ok boxes calg src a buf h
+  rw [← hl, spansOf_lastIdx src boxes _ sts hs]
+
+theorem idx0_append (boxes : List BoxEntry) (src extra : List SrcBox) (hs : src ≠ []) :
+    idx0 boxes (src ++ extra) = idx0 boxes src := by
+  cases src with
+  | nil => exact absurd rfl hs
+  | cons b bs => rfl
+
+/-- **Extra boxes are rejected (general form of F5's second half).** If an asset verifies under
+the box map `src`, no asset verifies under a box map that continues `src` with further boxes:
+a chunk / segment appended or inserted after the listed ones is covered by no hash. -/
+theorem boxhash_extra_box_rejected_all (boxes : List BoxEntry) (calg calg' : Option String)
+    (src extra : List SrcBox) (a a' : List UInt8) (buf buf' : Nat) (he : extra ≠ [])
+    (h : verifyBox boxes calg (some src) a buf = .ok) :
+    verifyBox boxes calg' (some (src ++ extra)) a' buf' ≠ .ok := by
+  intro h'
+  have hs : src ≠ [] := (verifyBox_ok boxes calg src a buf h).2.1
+  have c1 := verifyBox_box_count boxes calg src a buf h
+  have c2 := verifyBox_box_count boxes calg' (src ++ extra) a' buf' h'
+  rw [idx0_append boxes src extra hs, List.length_append] at c2
+  have : extra.length = 0 := by omega
+  exact he (List.eq_nil_of_length_eq_zero this)
+
+/-- **The length is fixed (general form of F5's first half).** Under one box map that is not
+just the manifest store, all assets that verify have the same length: appended or truncated
+bytes that leave the box map unchanged are rejected. -/
+theorem boxhash_length_fixed (boxes : List BoxEntry) (calg calg' : Option String)
+    (src : List SrcBox) (a a' : List UInt8) (buf buf' : Nat) (hno : onlyC2pa src = false)
+    (h : verifyBox boxes calg (some src) a buf = .ok)
+    (h' : verifyBox boxes calg' (some src) a' buf' = .ok) : a.length = a'.length := by
+  obtain ⟨_, _, _, _, _, _, hc⟩ := verifyBox_ok boxes calg src a buf h
+  obtain ⟨_, _, _, _, _, _, hc'⟩ := verifyBox_ok boxes calg' src a' buf' h'
+  rcases hc with hc | hc
+  · rw [hno] at hc; cases hc
+  · rcases hc' with hc' | hc'
+    · rw [hno] at hc'; cases hc'
+    · rw [hc] at hc'; exact Option.some.inj hc'
+
+theorem boxhash_append_rejected_all (boxes : List BoxEntry) (calg calg' : Option String)
+    (src : List SrcBox) (a extra : List UInt8) (buf buf' : Nat) (hno : onlyC2pa src = false)
+    (he : extra ≠ []) (h : verifyBox boxes calg (some src) a buf = .ok) :
+    verifyBox boxes calg' (some src) (a ++ extra) buf' ≠ .ok := by
+  intro h'
+  have := boxhash_length_fixed boxes calg calg' src a (a ++ extra) buf buf' hno h h'
+  rw [List.length_append] at this
+  have : extra.length = 0 := by omega
+  exact he (List.eq_nil_of_length_eq_zero this)
+
+theorem mem_zip_right {α β : Type} : ∀ (l1 : List α) (l2 : List β), l2.length = l1.length →
+    ∀ y ∈ l2, ∃ x, (x, y) ∈ l1.zip l2
+  | [], [], _, y, hy => by cases hy
+  | [], _ :: _, hl, _, _ => by simp at hl
+  | _ :: _, [], hl, _, _ => by simp at hl
+  | x :: xs, z :: zs, hl, y, hy => by
+    rcases List.mem_cons.1 hy with rfl | hy
+    · exact ⟨x, by simp⟩
+    · obtain ⟨x', hx'⟩ := mem_zip_right xs zs (by simpa using hl) y hy
+      exact ⟨x', by simp [hx']⟩
+
+/-- **Every byte is accounted for (single-name entries, any box map).** For an assertion in the
+form the SDK signs (one name per entry) and an asset that is not just the manifest store, a
+successful verification means: every position of the asset lies in the PNG signature the
+assertion does not list, or in the span of an entry; that entry is the C2PA entry / marked
+`excluded`, or the bytes of its span are exactly the signed preimage. No hypothesis on the box
+map: overlapping maps (JPEG `RSTn` inside `SOS`) are included. -/
+theorem boxhash_every_byte (boxes : List BoxEntry) (calg : Option String) (src : List SrcBox)
+    (a : List UInt8) (buf : Nat) (h1 : ∀ bm ∈ boxes, bm.names.length = 1)
+    (hno : onlyC2pa src = false) (h : verifyBox boxes calg (some src) a buf = .ok) :
+    ∃ sts, spansOf src boxes (idx0 boxes src) = .ok sts ∧
+      ∀ x, x < a.length → inSkippedPngh boxes src x = true ∨
+        ∃ p ∈ boxes.zip sts, p.2.start ≤ x ∧ x < p.2.start + p.2.len ∧
+          (entrySkipped p.1 = true ∨
+            (p.2.start + p.2.len ≤ a.length ∧ slice a p.2.start p.2.len = p.1.pre)) := by
+  obtain ⟨_, _, sts0, hs0, hl0, _, hc⟩ := verifyBox_ok boxes calg src a buf h
+  obtain ⟨sts, hs, hlen, hp⟩ := boxhash_protected boxes calg src a buf h
+  rw [hs0] at hs; cases hs
+  refine ⟨sts0, hs0, ?_⟩
+  intro x hx
+  have hcov : coverLoop src 0 = some a.length := by
+    rcases hc with hc | hc
+    · rw [hno] at hc; cases hc
+    · exact hc
+  cases hpn : inSkippedPngh boxes src x
+  · right
+    obtain ⟨st, hm, hx1, hx2⟩ := spans_cover_closed boxes src sts0 a.length hl0
+      (single_closed src boxes _ sts0 h1 hs0) hcov x hx hpn
+    obtain ⟨bm, hz⟩ := mem_zip_right boxes sts0 hlen st hm
+    refine ⟨(bm, st), hz, hx1, hx2, ?_⟩
+    cases hsk : entrySkipped bm
+    · right; exact hp (bm, st) hz hsk
+    · left; rfl
+  · left; rfl
+
+/-- **`boxhash_binds_single`.** Two assets that verify against the same single-name assertion
+under the same box map (any shape) have the same length and agree at every position outside
+the C2PA / excluded entries and the unlisted PNG signature. -/
+theorem boxhash_binds_single (boxes : List BoxEntry) (calg calg' : Option String) (src : List SrcBox)
+    (a a' : List UInt8) (buf buf' : Nat) (h1 : ∀ bm ∈ boxes, bm.names.length = 1)
+    (hno : onlyC2pa src = false)
+    (h : verifyBox boxes calg (some src) a buf = .ok)
+    (h' : verifyBox boxes calg' (some src) a' buf' = .ok) :
+    a.length = a'.length ∧
+    ∃ sts, spansOf src boxes (idx0 boxes src) = .ok sts ∧
+      ∀ x, x < a.length → unprotected boxes sts x = false → inSkippedPngh boxes src x = false →
+        a[x]? = a'[x]? := by
+  refine ⟨boxhash_length_fixed boxes calg calg' src a a' buf buf' hno h h', ?_⟩
+  obtain ⟨sts, hs, hall⟩ := boxhash_every_byte boxes calg src a buf h1 hno h
+  obtain ⟨sts', hs', _, hp'⟩ := boxhash_protected boxes calg' src a' buf' h'
+  rw [hs] at hs'; cases hs'
+  obtain ⟨_, hz⟩ := spansOf_zip_skipped src boxes _ sts hs
+  refine ⟨sts, hs, ?_⟩
+  intro x hx hu hpn
+  rcases hall x hx with hh | ⟨p, hm, hx1, hx2, hh⟩
+  · rw [hpn] at hh; cases hh
+  · have hns : entrySkipped p.1 = false := by
+      unfold unprotected at hu
+      rw [List.any_eq_false] at hu
+      have := hu p hm
+      rw [hz p hm] at this
+      simpa [hx1, hx2] using this
+    rcases hh with hh | ⟨_, e1⟩
+    · rw [hns] at hh; cases hh
+    · have e2 := (hp' p hm hns).2
+      rw [← slice_getElem? a p.2.start p.2.len x hx1 hx2,
+        ← slice_getElem? a' p.2.start p.2.len x hx1 hx2, e1, e2]
 
 end C2pa.C01
